@@ -31,7 +31,7 @@ static Verdict runCase(const OpSeq& c, Info& info)
     lib::Encoder enc;
     uint16_t dev = 0, counter = 0;
     uint8_t stream = 0;
-    bool emitted = false, wrapped = false, changeAfterEmit = false, encodeAfterChange = false;
+    bool emitted = false, wrapped = false, changeAfterEmit = false, encodeAfterChange = false, sameValueSet = false;
 
     auto checkFrames = [&](const std::vector<std::vector<uint8_t>>& frames, uint8_t version, const std::vector<lib::Packet>& batch,
                            size_t opIndex) -> Verdict {
@@ -80,6 +80,8 @@ static Verdict runCase(const OpSeq& c, Info& info)
         switch (op.op)
         {
             case 0:
+                if (emitted && dev == static_cast<uint16_t>(op.arg))
+                    sameValueSet = true;
                 dev = static_cast<uint16_t>(op.arg);
                 enc.setDeviceId(dev);
                 counter = 0;
@@ -87,6 +89,8 @@ static Verdict runCase(const OpSeq& c, Info& info)
                     changeAfterEmit = true;
                 break;
             case 1:
+                if (emitted && stream == static_cast<uint8_t>(op.arg))
+                    sameValueSet = true;
                 stream = static_cast<uint8_t>(op.arg);
                 enc.setStreamId(stream);
                 counter = 0;
@@ -149,6 +153,8 @@ static Verdict runCase(const OpSeq& c, Info& info)
                  "after op " << i << " (kind " << int(op.op) << ") the encoder reports counter " << enc.getSequenceCounter() << ", last emitted frame had " << counter);
         VF_CHECK(enc.getDeviceId() == dev && enc.getStreamId() == stream, "after op " << i << " id getters disagree with the configuration");
     }
+    if (sameValueSet)
+        info.tag("id_set_to_the_value_already_configured_after_frames");
     if (wrapped)
         info.tag("counter_wrapped");
     if (encodeAfterChange)
@@ -162,6 +168,8 @@ static rc::Gen<OpSeq> genCase(int tier)
     return rc::gen::exec([tier]() {
         OpSeq s;
         int n = *range<int>(1, tier ? 14 : 8);
+        uint16_t curDev = 0;
+        uint8_t curStream = 0;
         EncGenParams p;
         p.maxBatch = 5;
         p.frameBudget = 3000;
@@ -170,9 +178,16 @@ static rc::Gen<OpSeq> genCase(int tier)
             EncOp op;
             op.op = *rc::gen::weightedElement<uint8_t>({{2, 0}, {2, 1}, {2, 2}, {6, 3}, {4, 4}, {1, 5}, {1, 6}});
             if (op.op == 0)
-                op.arg = *anyInt<uint16_t>();
+            {
+                // a third of the id writes re-apply the value that is already configured (the counter must restart all the same)
+                op.arg = *range<int>(0, 2) == 0 ? curDev : *anyInt<uint16_t>();
+                curDev = static_cast<uint16_t>(op.arg);
+            }
             else if (op.op == 1)
-                op.arg = *anyInt<uint8_t>();
+            {
+                op.arg = *range<int>(0, 2) == 0 ? curStream : *anyInt<uint8_t>();
+                curStream = static_cast<uint8_t>(op.arg);
+            }
             else if (op.op == 4)
                 op.arg = *rc::gen::weightedOneOf<uint32_t>({{1, range<uint32_t>(1, 50)}, {2, range<uint32_t>(20000, 33000)}, {1, range<uint32_t>(65000, 66000)}});
             else if (op.op >= 3)
